@@ -182,13 +182,14 @@ def run(ch, config, res):
             if op in ("add", "update"):
                 struct, values = E.gen_definition(wl, "def", "benign")
                 conds, acts, mt = E.fill(struct, values)
+                default_mt = mt == "anyof" and wl.flag("default_matchtype", 1, 2)
                 if op == "add":
-                    rc = E.classify(lambda: (fs.addfilter(n, conds, acts, mt), True)[1])
+                    rc = E.classify(lambda: (fs.addfilter(n, conds, acts, mt) if not default_mt else fs.addfilter(n, conds, acts), True)[1])
                     if rc[0] == "ok":
                         model.append(MF(n, struct, values))
                 else:
                     n2 = names[wl.int("name2", len(names))]
-                    rc = E.classify(lambda: fs.updatefilter(n, n2, conds, acts, mt))
+                    rc = E.classify(lambda: (fs.updatefilter(n, n2, conds, acts, mt) if not default_mt else fs.updatefilter(n, n2, conds, acts)))
                     if rc[0] == "ok":
                         m = model[find(n)]
                         m.name, m.struct, m.values = n2, struct, values
